@@ -270,6 +270,8 @@ def encode_case(cid, sm, pre_spec, cells, mean, var):
 
 def parse_reply(line):
     parts = line.split()
+    if len(parts) == 3 and parts[1].startswith("nodeVar="):
+        return parts[0], " ".join(parts[1:])
     if len(parts) >= 2 and parts[1] == "bad-op":
         return parts[0], None
     cid, outcome, sid = parts[0], parts[1], parts[2]
